@@ -71,6 +71,9 @@ Fixpoint all_rows (w : world) (focus : string) (ss ds : list mpeer) : outcome (l
   | s :: t => do a <- row_conns w focus s ds; do b <- all_rows w focus t ds; Ok (a ++ b)
   end.
 
+Definition ip_partition_of (w : world) : list ivl :=
+  match referenced_blocks (w_nps w) with Ok b => ip_partition b | Err _ => [] end.
+
 Record list_result := mkLR { lr_entries : list rentry; lr_peers : list rpeer; lr_warn : bool }.
 
 (* getConnectionsList without Ingress/Route objects.
@@ -190,6 +193,7 @@ Definition list_case_code (c : list_case) : nat :=
 (* 0 well-formed (or no report) ; 6 the implementation's report is not well-formed *)
 Definition list_case_wf_code (c : list_case) : nat :=
   match lc_obs c with
+  | ObsOk [] [] _ => 0%nat     (* nothing analysed (no workloads / focus workload absent): no peers to check *)
   | ObsOk es ps _ => if wf_report_b es ps [RW "{ingress-controller}"] then 0%nat else 6%nat
   | _ => 0%nat
   end.
